@@ -8,6 +8,7 @@ Several renderings of one derivation must agree; strings made invalid by constru
 rejected by the documented error family.
 """
 import itertools
+import math
 import random
 
 import numpy as np
@@ -39,7 +40,7 @@ COMPLEX_VALUES = {'a': 1.3 + 0.4j, 'b': 0.7 - 1.1j, 'c': 0.6 + 0.9j, 'd': -1.9 +
 def gates(tier):
     return {'flat_sequences': 5000, 'flat_discriminating': 3000, 'random_derivations': 2000,
             'renderings_checked': 10000, 'invalid_strings': 2000, 'array_derivations': 300,
-            'complex_binding_cases': 1000, 'metric_suffix_cases': 100, 'literal_checks': 2500, 'values_after_matrix_grader_calls': 250, 'tiny_literals': 300, 'grader_layer_calls': 300}
+            'complex_binding_cases': 1000, 'metric_suffix_cases': 100, 'literal_checks': 2500, 'hand_listed_checks': 300, 'values_after_matrix_grader_calls': 250, 'tiny_literals': 300, 'grader_layer_calls': 300}
 
 
 def lib_scope(bindings, metric):
@@ -416,6 +417,45 @@ def run_graders(ctx):
                 ctx.violation('C03:grader:verdict', 'expected ok=%s, got %r' % (want, out.value), wit)
 
 
+HAND_LISTED = [
+    # products with two vectors and further scalar / matrix factors evaluate left to right
+    ('2*[1,2]*[3,4]', 22.0), ('[1,2]*2*[3,4]', 22.0), ('[1,2]*[3,4]*2', 22.0), ('3*2*[1,2]*[3,4]', 66.0), ('x*[1,0]*[y,1]', None),
+    ('[[1,2],[3,4]]*[1,1]*[1,1]', 10.0), ('2*[1,1]*[[1,2],[3,4]]*[1,1]', 20.0), ('[1,1]*[[1,2],[3,4]]*[1,1]/2', 5.0),
+    ('-[1,2]*[3,4]', -11.0), ('2*[1,2]*[3,4]^1', None), ('[1,2]*[3,4]+1', 12.0), ('1+2*[1,2]*[3,4]', 23.0),
+    # quiet underflow is an ordinary value (zero or a denormal), in scalars, functions and arrays alike
+    ('exp(-1000)', 0.0), ('1/(1+exp(-800))', 1.0), ('exp(-30^2)', 0.0), ('sin(1e-310)', 1e-310), ('1e-200*1e-200', 0.0), ('e^-1000', 0.0),
+    ('2^-1080', 0.0), ('[1e-200,1]*1e-200', np.array([0.0, 1e-200])), ('[1e-160,1]*[1e-160,1]', 1.0),
+    ('[[1e-200,0],[0,1]]^2', np.array([[0.0, 0.0], [0.0, 1.0]])), ('tanh(1e-320)', 1e-320), ('sqrt(1e-320)', math.sqrt(1e-320)),
+    ('[1e-300,2]/1e10', np.array([1e-310, 2e-10])), ('abs(1e-200*i)^2', 0.0), ('cos(1e-200)', 1.0),
+]
+
+
+def run_hand_listed(ctx):
+    from mitxgraders.helpers.calc import evaluator, DEFAULT_FUNCTIONS, DEFAULT_VARIABLES
+    variables = dict(DEFAULT_VARIABLES, x=3.0, y=5.0)
+    for rep in range(ctx.pick(1, 3)):
+        for s_, want in HAND_LISTED:
+            if want is None:
+                want = {'x*[1,0]*[y,1]': 15.0, '2*[1,2]*[3,4]^1': None}[s_]
+            out = lib.call(ctx, lambda: evaluator(s_, variables, DEFAULT_FUNCTIONS, {'%': 0.01}, max_array_dim=2)[0])
+            ctx.ev()
+            ctx.count('hand_listed_checks')
+            wit = {'string': s_, 'expected': want, 'outcome': out.brief()}
+            ctx.nontrivial('hand:' + s_)
+            if want is None:
+                # a vector raised to a power: an error of the library's family
+                if out.returned:
+                    ctx.violation('C03:hand_listed:value_where_error', '%r returned %r' % (s_, out.value), wit)
+                continue
+            numeric = [w for w in out.warnings if w[0] in ('RuntimeWarning', 'ComplexWarning')]
+            if not out.returned:
+                ctx.violation('C03:hand_listed:error_for_valid:' + type(out.exc).__name__, '%r raised %r; its value is %r' % (s_, out.exc, want), wit)
+            elif numeric:
+                ctx.violation('C03:hand_listed:warning', '%r emitted %r' % (s_, numeric[:2]), wit)
+            elif not np.allclose(np.asarray(out.value, dtype=complex), np.asarray(want, dtype=complex), rtol=1e-9, atol=1e-300):
+                ctx.violation('C03:hand_listed:value', '%r = %r, expected %r' % (s_, out.value, want), wit)
+
+
 def run_after_matrix_graders(ctx):
     """The value of a string does not depend on what graders did before: matrix inverses after MatrixGrader calls (incl.
     raising ones) made with negative powers switched off."""
@@ -475,6 +515,7 @@ def run_literals(ctx):
 
 
 def run(ctx):
+    run_hand_listed(ctx)
     run_literals(ctx)
     run_after_matrix_graders(ctx)
     run_flat(ctx)
